@@ -315,7 +315,7 @@ class _History:
             else:
                 do_end = False
             if do_end:
-                if pending is None and not can_end:
+                if steps_in_epoch < 1:
                     raise HarnessError("empty epoch")
                 self._epoch_end()
                 epoch_ends += 1
@@ -424,9 +424,9 @@ class _History:
             ref_loss, ref_t, adv_res = self._ref_reinforce(po, Rw, LL, Bn, ll_t)
         got = float(loss_t)
         run.log.add("loss", self.step_no, _hex(got))
-        if not R.close(got, ref_loss):
+        if abs(got - ref_loss) > R.tol(ref_loss) + self.cond:
             self.violate("loss", f"step {self.step_no}: reported loss {got!r}, reference surrogate {ref_loss!r}",
-                         "surrogate", got=got, ref=ref_loss, B=Bn)
+                         "surrogate", got=got, ref=ref_loss, B=Bn, tol=R.tol(ref_loss) + self.cond)
             raise StopRun()
         self._grad_check(loss_t, ref_t, lambda: loss_t.backward(), ll_t.mean(), adv_res, len(Rw))
         with run.guard(self.scope, "optimizer.step()"):
@@ -557,23 +557,27 @@ class _History:
                 return R.scaler_transform(adv, mode, stats)
         ref_loss, ref_pg, adv = R.reinforce(Rw, LL, b_list, bl_loss, amap)
         run.log.add("ref", self.step_no, _hex(ref_loss), _hex(bl_loss))
-        # the pieces the library reports
-        got_pg = float(po["reinforce_loss"])
-        if mode in ("norm", "scale"):
-            # standardisation divides by the running std: allow for its float32 accumulation
-            s = self.adv_stats.mean_std()[1]
-            if not (s > 1e-3 * max(self.adv_stats.scale(), 1e-30)):
+        # conditioning: the advantages are float32 differences known to ~1e-6 * A (divided by the scaler's
+        # divisor); each is multiplied by a log-likelihood of size max|ll| before the terms largely cancel
+        A = max([1.0] + [abs(x) for x in Rw] + [abs(x) for x in b_list])
+        den = 1.0
+        if isinstance(mode, int):
+            den = float(mode)
+        elif mode in ("norm", "scale"):
+            s_adv = self.adv_stats.mean_std()[1]
+            if not (s_adv > 1e-3 * max(self.adv_stats.scale(), 1e-30)):
                 run.probe("degenerate_advantage_std")  # all advantages equal: the scaled term is eps-dominated
-                return got_pg + bl_loss, None, 0.0
-            tol_pg = R.tol(ref_pg) * 50
-            if abs(got_pg - ref_pg) > tol_pg:
-                self.violate("loss", f"step {self.step_no}: policy-gradient term {got_pg!r}, reference {ref_pg!r} "
-                             f"(advantages scaled with '{mode}')", "pg_term_scaled", got=got_pg, ref=ref_pg)
-                raise StopRun()
-            ref_loss = got_pg + bl_loss  # the total is compared with the float32 term actually used
-        elif not R.close(got_pg, ref_pg):
+                self.cond = 0.0
+                return float(po["reinforce_loss"]) + bl_loss, None, 0.0
+            den = s_adv + R.F32_EPS
+        adv_res = 1e-6 * A / den
+        cond = adv_res * max(abs(x) for x in LL) * (50.0 if mode in ("norm", "scale") else 1.0)
+        self.cond = cond
+        got_pg = float(po["reinforce_loss"])
+        if abs(got_pg - ref_pg) > R.tol(ref_pg) + cond:
             self.violate("loss", f"step {self.step_no}: policy-gradient term {got_pg!r}, reference -mean((R-b)*ll) = "
-                         f"{ref_pg!r}", "pg_term", got=got_pg, ref=ref_pg, baseline=bl_kind)
+                         f"{ref_pg!r}" + (f" (advantages scaled with {mode!r})" if mode is not None else ""),
+                         "pg_term", got=got_pg, ref=ref_pg, baseline=bl_kind, tol=R.tol(ref_pg) + cond)
             raise StopRun()
         got_bl = float(po["bl_loss"])
         if not R.close(got_bl, bl_loss):
@@ -583,13 +587,7 @@ class _History:
         ref_t = R.t_pg(adv, ll_t)
         if bl_loss_t is not None:
             ref_t = ref_t + bl_loss_t
-        A = max([1.0] + [abs(x) for x in Rw] + [abs(x) for x in b_list])
-        den = 1.0
-        if isinstance(mode, int):
-            den = float(mode)
-        elif mode in ("norm", "scale"):
-            den = self.adv_stats.mean_std()[1] + R.F32_EPS
-        return ref_loss, ref_t, 1e-6 * A / den
+        return ref_loss, ref_t, adv_res
 
     def _coords(self, i):
         b0 = self.batch0
@@ -657,9 +655,11 @@ class _History:
         inv_t = po.get("loss_inv", 0)
         inv = float(inv_t)
         total, ps, ss = R.symnco(Rw, LL, Bn, S0, A0, plan["sym_beta"], plan["sym_alpha"], inv)
+        amag = max([1.0] + [abs(x) for x in Rw])
+        self.cond = 1e-6 * amag * max(abs(x) for x in LL) * (1.0 + plan["sym_beta"])
         for key, ref in (("loss_ps", ps), ("loss_ss", ss)):
             got = float(po[key])
-            if not R.close(got, ref):
+            if abs(got - ref) > R.tol(ref) + self.cond:
                 self.violate("loss", f"step {self.step_no}: {key} = {got!r}, reference group-mean REINFORCE term {ref!r}",
                              key, got=got, ref=ref, S=S, A=A)
                 raise StopRun()
@@ -672,8 +672,7 @@ class _History:
             ref_t = ref_t + plan["sym_beta"] * R.t_pg(R.group_mean_pg(Rw, LL, strides)[1], ll_t)
             if isinstance(inv_t, torch.Tensor):
                 ref_t = ref_t + plan["sym_alpha"] * inv_t.double()
-        A = max([1.0] + [abs(x) for x in Rw])
-        return total, ref_t, 1e-6 * A * (1.0 + plan["sym_beta"])
+        return total, ref_t, 1e-6 * amag * (1.0 + plan["sym_beta"])
 
     # -- gradients ------------------------------------------------------------------------------
     def _grad_check(self, loss_t, ref_t, do_backward, ll_mean_t=None, adv_res=0.0, n=1):
